@@ -150,12 +150,9 @@ row(props=["C03"], func="pkg/application/call.BuildMethodMap", params=["structs"
     each={"as": "clz,method"}, when="true", fields={"key": 'clz.Package + "." + clz.NodeName + "." + method.Name'}, what="caller → callees for every function of every class")
 row(props=["C03"], kind="final", **{"global": "pkg/application/call.maxLoopCount"}, value="6", what="expansion budget of the call graph")
 row(props=["C04"], kind="final", **{"global": "pkg/application/rcall.loopDepth"}, value="6", what="expansion budget of the reverse call graph")
-row(props=["C18"], func="pkg/application/count.BuildCallMap", params=["deps"], kind="emits", target="mapstore:makemap2", tag={}, total=2, index=0,
+row(props=["C18"], func="pkg/application/count.BuildCallMap", params=["deps"], kind="emits", target="mapstore:makemap2", tag={}, merge=True,
     each={"as": "clz,method,c"},
-    when='has(newmap(1), %s) && lookup(newmap(2), %s) == 0' % ((FULL,) * 2), fields={"key": FULL, "value": "1"}, what="first call site of a declared method counts 1")
-row(props=["C18"], func="pkg/application/count.BuildCallMap", params=["deps"], kind="emits", target="mapstore:makemap2", tag={}, index=1,
-    each={"as": "clz,method,c"},
-    when='has(newmap(1), %s) && !(lookup(newmap(2), %s) == 0)' % ((FULL,) * 2), fields={"key": FULL, "value": "lookup(newmap(2), %s) + 1" % FULL}, what="every further call site adds exactly 1")
+    when='has(newmap(1), %s)' % FULL, fields={"key": FULL, "value": "lookup(newmap(2), %s) + 1" % FULL}, what="every call site of a declared method adds exactly 1 to its count")
 row(props=["C18"], func=CD + "(CodeFunction).IsStatic", params=["m"], kind="returns", expr='exists(m.Modifiers, x, x == "static")', what="static ⇔ the modifier list contains static, wherever it stands")
 row(props=["C18", "C10", "C08"], func="pkg/infrastructure/string_helper.StringArrayContains", params=["s", "term"], kind="returns", expr="exists(s, x, x == term)", what="membership is a linear scan")
 row(props=["C18"], func=CD + "(CodeDataStruct).IsUtilClass", params=["d"], kind="returns", expr='contains(lower(d.NodeName), "util") || contains(lower(d.NodeName), "utils")', what="utility class ⇔ name contains util")
